@@ -56,6 +56,7 @@ void Connector::startCycleInLoop()
     setState(kDisconnected);
   }
   retryDelayMs_ = kInitRetryDelayMs;
+  cancelRetryTimer();
   startInLoop();
 }
 
@@ -77,12 +78,20 @@ void Connector::stop()
 {
   connect_ = false;
   loop_->queueInLoop(std::bind(&Connector::stopInLoop, shared_from_this()));
-  // FIXME: cancel timer
+}
+
+void Connector::cancelRetryTimer()
+{
+  // A back-off timer that outlives its cycle would start a second attempt
+  // chain inside the next one: stop() during the wait, then connect().
+  loop_->cancel(retryTimer_);
+  retryTimer_ = TimerId();
 }
 
 void Connector::stopInLoop()
 {
   loop_->assertInLoopThread();
+  cancelRetryTimer();
   if (state_ == kConnecting)
   {
     setState(kDisconnected);
@@ -237,8 +246,8 @@ void Connector::retry(int sockfd)
   {
     LOG_INFO << "Connector::retry - Retry connecting to " << serverAddr_.toIpPort()
              << " in " << retryDelayMs_ << " milliseconds. ";
-    loop_->runAfter(retryDelayMs_/1000.0,
-                    std::bind(&Connector::startInLoop, shared_from_this()));
+    retryTimer_ = loop_->runAfter(retryDelayMs_/1000.0,
+                                  std::bind(&Connector::startInLoop, shared_from_this()));
     retryDelayMs_ = std::min(retryDelayMs_ * 2, kMaxRetryDelayMs);
   }
   else
